@@ -47,6 +47,10 @@ class World:
                 if "proc" in r and "p" not in r:
                     r["p"] = r["proc"]
                 if "name" in r:
+                    if not r["name"].endswith(".token"):
+                        if r["e"] == "tok.evt.error":
+                            self.problems.append(f"observer of {r.get('p')} raised on {r['name']}")
+                        continue
                     r["job"] = r["name"].replace(".token", "")
                 r.pop("seq", None)
                 out.append(r)
@@ -71,7 +75,7 @@ class World:
         r = self.recv(p, timeout=30)
         if r and r.get("ok"):
             self.emit("h.start", p=p)
-        return r
+        return r  # (the initial recount itself is the hook event tok.init of that process)
 
     def send(self, p, **cmd):
         q = self.procs[p]
@@ -319,3 +323,125 @@ if __name__ == "__main__":
         print("==", name, r["problems"])
         for e in r["ev"]:
             print("  ", {k: v for k, v in e.items() if k not in ("name",)})
+
+
+# ---------------------------------------------------------------- full runs: real experiments, real schedulers, real jobs
+XP_PROG = VERIF / "xv" / "procs" / "xp_token.py"
+
+
+def full_run(total, procs, gate_order, settle=0.4):
+    """procs: {xpname: [[jobname, n, count], ...]}; gate_order: job names in the order their bodies are allowed to finish.
+    Returns the merged event list in the notation of XpmTokenFS_Trace plus problems"""
+    root = Path(tempfile.mkdtemp(prefix="xvfull-", dir=os.environ.get("XV_SCRATCH_DISK", str(VERIF / ".work"))))
+    log = root / "events.ndjson"
+    gatedir = root / "gates"
+    gatedir.mkdir()
+    env = dict(os.environ, PYTHONPATH=f"{REPO_SRC}:{VERIF}", XPM_VERIF="1", XPM_VERIF_TRACE=str(log), XPM_WORKDIR=str(root / "local"))
+    env.pop("XV_PROC", None)
+    ps = {}
+    problems = []
+    nname = {}
+    try:
+        for name, jobs in procs.items():
+            for j, n, c in jobs:
+                nname[f"x{n}"] = j
+            ps[name] = subprocess.Popen(["/venv/bin/python", "-W", "ignore", str(XP_PROG), str(root / f"ws-{name}"), name, str(total),
+                                         json.dumps(jobs), str(gatedir)], env=env, stdout=subprocess.DEVNULL, stderr=subprocess.DEVNULL)
+
+        def events():
+            if not log.exists():
+                return []
+            return [json.loads(x) for x in log.read_text().splitlines() if x.strip()]
+
+        def wait(pred, timeout=60):
+            t0 = time.time()
+            while time.time() - t0 < timeout:
+                if pred(events()):
+                    return True
+                time.sleep(0.05)
+            return False
+
+        # a body can only begin once its scheduler holds the token for it; each body that has begun is allowed to
+        # finish a little later (so that the others demonstrably wait)
+        released = set()
+        t0 = time.time()
+        while len(released) < len(nname) and time.time() - t0 < 150:
+            begun = [e.get("p") for e in events() if e.get("e") == "begin" and e.get("p") not in released]
+            for x in begun:
+                time.sleep(settle)
+                (gatedir / f"gate.{x}").touch()
+                released.add(x)
+            if all(p.poll() is not None for p in ps.values()):
+                break
+            time.sleep(0.05)
+        if len(released) < len(nname):
+            problems.append(f"bodies that never began: {sorted(nname[x] for x in set(nname) - released)}")
+        for name, p in ps.items():
+            try:
+                p.wait(timeout=120)
+            except subprocess.TimeoutExpired:
+                problems.append(f"experiment {name} did not finish")
+                p.kill()
+        ev = events()
+    finally:
+        for p in ps.values():
+            if p.poll() is None:
+                p.kill()
+        shutil.rmtree(root, ignore_errors=True)
+    # normalise
+    pid2proc = {}
+    ident2job = {}
+    for e in ev:
+        if e.get("e") == "h.start":
+            pid2proc[e["pid"]] = e["proc"]
+        if e.get("e") == "h.ident":
+            ident2job[e["ident"]] = e["job"]
+    out = []
+    owner, req = {}, {}
+    for name, jobs in procs.items():
+        for j, n, c in jobs:
+            owner[j] = name
+            req[j] = c
+    for e in ev:
+        k = e.get("e")
+        r = {"e": k}
+        if k in ("begin", "end", "fail"):
+            r = {"e": {"begin": "h.jobstart", "end": "h.jobend", "fail": "h.jobend"}[k], "job": nname.get(e.get("p"), "?")}
+        elif k == "h.ident" or k == "h.states":
+            r = {"e": "h.note"}
+        else:
+            if "proc" in e:
+                r["p"] = e["proc"]
+            elif "pid" in e:
+                r["p"] = pid2proc.get(e["pid"], "?")
+            if "name" in e:
+                if not e["name"].endswith(".token"):
+                    if k == "tok.evt.error":
+                        problems.append(f"observer raised on {e['name']}")
+                    continue
+                r["job"] = ident2job.get(e["name"].replace(".token", ""), e["name"])
+            elif "job" in e:
+                r["job"] = e["job"]
+            for f in ("available", "by", "new"):
+                if f in e:
+                    r[f] = e[f]
+        out.append(r)
+    states = {e["proc"]: e["states"] for e in ev if e.get("e") == "h.states"}
+    for name in procs:
+        if name not in states:
+            problems.append(f"experiment {name} reported no final states")
+        elif any(s != "DONE" for s in states[name]):
+            problems.append(f"experiment {name}: final states {states[name]}")
+    return {"wl": {"owner": owner, "req": req, "total": total}, "ev": out, "problems": problems}
+
+
+def full_one_unit():
+    return full_run(1, {"p1": [["a", 1, 1], ["b", 2, 1]], "p2": [["c", 3, 1], ["d", 4, 1]]}, ["a", "b", "c", "d"])
+
+
+def full_mixed():
+    return full_run(2, {"p1": [["a", 1, 1], ["b", 2, 2]], "p2": [["c", 3, 1], ["d", 4, 2]]}, [])
+
+
+SCENARIOS["full_one_unit"] = full_one_unit
+SCENARIOS["full_mixed"] = full_mixed
